@@ -6,6 +6,32 @@ from ..model import Program, provenance, op_local, trace_back
 W = "tantivy_sstable::Writer::<W, TValueWriter>::"
 
 
+def r_inverted(rep, prog):
+    """an inverted key range is an empty stream, not an out-of-order file slice"""
+    from ..rules import dominating_guards
+    R = "C15-R3"
+    rep.rule(R, "inverted ranges are empty: Dictionary::file_slice_for_range locates the block of the lower key and the block of the upper key independently and then slices the file from the start of the first to the end of the second; FileSlice::slice asserts start <= end, so the slice must be dominated by a comparison of the two located block ids (an inverted range whose bounds lie at least two blocks apart is an empty stream — 'what a sorted map would return' — not a panic)")
+    fid = next((n for n in prog.bodies if n.endswith("dictionary::Dictionary::<TSSTable>::file_slice_for_range")), None)
+    b = prog.bodies.get(fid) if fid else None
+    if b is None:
+        rep.fail(R, "anchor", "cannot establish: Dictionary::file_slice_for_range not found")
+        return
+    loc = [bi for bi, t in b.calls() if (t.get("res") or t.get("f") or "").endswith("SSTableIndex::locate_with_key")]
+    sl = [bi for bi, t in b.calls() if (t.get("res") or t.get("f") or "").endswith("FileSlice::slice")]
+    if not rep.check(len(loc) >= 2 and len(sl) >= 1, R, "file_slice_for_range locates two blocks and slices", "%d locate_with_key, %d slice" % (len(loc), len(sl)),
+                     "cannot establish: expected two locate_with_key calls and a FileSlice::slice in file_slice_for_range", site=b.span):
+        return
+    okk = False
+    for sb, arms, l in dominating_guards(b, sl[0]):
+        lv = provenance(b, l)
+        sites_ = {x[2] for x in lv if x[0] == "call" and x[1].endswith("SSTableIndex::locate_with_key")}
+        if len(sites_) >= 2:
+            okk = True
+    rep.check(okk, R, "the slice is taken only after the two block ids were compared", "a guard decided by both locate_with_key results dominates FileSlice::slice",
+              "Dictionary::file_slice_for_range slices the file from the lower key's block to the upper key's block without comparing the two block ids: for an inverted range across blocks the end offset lies before "
+              "the start offset and FileSlice::slice panics (with the sstable term dictionary a RangeQuery with swapped bounds panics instead of matching nothing)", site=site(b, sl[0]))
+
+
 def run(rep, prog, tier):
     rep.rule("C15-R1", "order is enforced in release builds: with debug assertions off, sstable::Writer::insert_key still contains a panic guard, controlled by a comparison with previous_key (common_prefix_len), that dominates the Ok exit; the fst builder's insert error is propagated")
     rep.rule("C15-R2", "the sstable version written by Writer::finish is accepted by SSTableIndex::open")
@@ -88,3 +114,4 @@ def run(rep, prog, tier):
                 if any(l[0] in ("uneval", "const") and (str(l[1]).endswith("SSTABLE_VERSION") or str(l[1]) == str(ver)) for l in lv) or any(l[0] == "uneval" and "finish" in l[1] for l in lv):
                     okv = True
         rep.check(okv, R, "Writer::finish serializes SSTABLE_VERSION", "found", "cannot establish that Writer::finish writes SSTABLE_VERSION", site=fb.span)
+    r_inverted(rep, prog)
